@@ -183,7 +183,7 @@ def run(ctx):
         if k in seen:
             continue
         seen.add(k)
-        ctx.violation(f["what"], dict(kind="c12", **f))
+        ctx.violation(f["what"], {**f, "check": "c12"})
     if disagreements and not fails:
         ctx.broken.append(f"model of kio.static.primitive disagrees with the code: {disagreements[0]}")
 
